@@ -110,7 +110,108 @@ def cases(tier, seed):
                             if geom in ("jitter1", "jitter2", "taper") and sections == 1 and pres == "c2c_expansion" and name == "row2" and kind.startswith("count"):
                                 # (a request that fixes the count: with a size-derived count the two blocks rightly conflict)
                                 out.append({"assembly": name, "dir": g, "geom": geom, "kind": kind, "preserve": pres, "sections": sections, "tier": tier, "overspec": True})
+    # library shapes: ONE graded tangential (sketch axis 1) chop given through the shape's own chop call
+    for name in SHAPES:
+        for chop in ("total", "c2c"):
+            out.append({"what": "shape", "shape": name, "chop": chop})
     return out
+
+
+SHAPES = [
+    "Cylinder", "SemiCylinder", "Frustum", "Elbow", "ExtrudedRing", "RevolvedRing", "Hemisphere", "EighthSphere", "TJoint", "LJoint", "NJoint3", "NJoint5",
+    "x:OneCoreDisk", "x:FourCoreDisk", "x:HalfDisk", "x:Oval", "x:WrappedDisk", "x:SplineDisk", "x:HalfSplineDisk", "x:QuarterSplineDisk",
+    "x:SplineRing", "x:HalfSplineRing", "x:QuarterSplineRing",
+]  # fmt: skip
+
+
+def make_shape(name):
+    import classy_blocks as cb
+
+    if name.startswith("x:"):
+        n = name[2:]
+        if n in ("OneCoreDisk", "FourCoreDisk", "HalfDisk"):
+            sk = getattr(cb, n)([0, 0, 0], [1, 0, 0], [0, 0, 1])
+        elif n == "Oval":
+            sk = cb.Oval([0, 0, 0], [0, 1.0, 0], [0, 0, 1], 0.5)
+        elif n == "WrappedDisk":
+            sk = cb.WrappedDisk([0, 0, 0], [1.0, 1.0, 0], 0.5, [0, 0, 1])
+        elif "Ring" in n:
+            sk = getattr(cb, n)([0, 0, 0], [1, 0, 0], [0, 1.4, 0], 0.3, 0.2, 0.3, 0.3)
+        else:
+            sk = getattr(cb, n)([0, 0, 0], [1, 0, 0], [0, 1.4, 0], 0.3, 0.2)
+        return cb.ExtrudedShape(sk, 0.8), "sketch"
+    if name == "Cylinder":
+        return cb.Cylinder([0, 0, 0], [0, 0, 1.5], [0.7, 0, 0]), "round"
+    if name == "SemiCylinder":
+        return cb.SemiCylinder([0, 0, 0], [0, 0, 1.5], [0.7, 0, 0]), "round"
+    if name == "Frustum":
+        return cb.Frustum([0, 0, 0], [0, 0, 1.5], [0.7, 0, 0], 0.4), "round"
+    if name == "Elbow":
+        return cb.Elbow([0, 0, 0], [0.5, 0, 0], [0, 0, 1], 1.1, [2, 0, 0], [0, 1, 0], 0.4), "round"
+    if name == "ExtrudedRing":
+        return cb.ExtrudedRing([0, 0, 0], [0, 0, 0.8], [1.0, 0, 0], 0.5, 6), "round"
+    if name == "RevolvedRing":
+        return cb.RevolvedRing([0, 0, 0], [0, 0, 1], cb.Face([[0.5, 0, 0.1], [0.5, 0, 0.9], [1.0, 0, 0.9], [1.0, 0, 0.1]]), 6), "round"
+    if name == "Hemisphere":
+        return cb.Hemisphere([0, 0, 0], [0.8, 0, 0], [0, 0, 1]), "round"
+    if name == "EighthSphere":
+        from classy_blocks.construct.shapes.sphere import EighthSphere
+
+        return EighthSphere([0, 0, 0], [0.8, 0, 0], [0, 0, 1]), "round"
+    if name == "TJoint":
+        return cb.TJoint([0, 0, 0], [2, 0, 0], [0, 0, 0.5]), "round"
+    if name == "LJoint":
+        return cb.LJoint([0, 0, 0], [2, 0, 0], [0, 0, 0.5]), "round"
+    if name.startswith("NJoint"):
+        return cb.NJoint([0, 0, 0], [2, 0, 0], [0, 0, 0.5], int(name[6:])), "round"
+    raise AssertionError(name)
+
+
+def run_shape(case):
+    """one graded request, preserve = cell-to-cell expansion (the default): count and ratio are the same on every
+    edge the request reaches, so the four parallel edges of every block carry ONE expansion (written as such or its
+    reciprocal, never a mixture), whatever their lengths"""
+    import os
+
+    import classy_blocks as cb
+
+    from mc import foamdict, runner
+
+    coords = dict(case)
+    violations = []
+    kw = {"count": 8, "total_expansion": 3.0} if case["chop"] == "total" else {"count": 6, "c2c_expansion": 1.25}
+    try:
+        shape, kind = make_shape(case["shape"])
+        if kind == "round":
+            shape.chop_axial(count=3)
+            shape.chop_radial(count=3)
+            shape.chop_tangential(**kw)
+        else:
+            shape.chop(0, count=3)
+            shape.chop(2, count=3)
+            shape.chop(1, **kw)
+        mesh = cb.Mesh()
+        mesh.add(shape)
+        path = os.path.join(runner.scratch_dir(), f"c04s_{os.getpid()}")
+        mesh.write(path)
+        d = foamdict.parse(open(path).read())
+    except Exception as err:
+        violations.append({"clause": "well-posed-chops-rejected", "coords": coords, "detail": f"{type(err).__name__}: {str(err)[:200]}"})
+        return {"violations": violations, "outcomes": {"raised": 1}, "execs": 1, "nontrivial_n": 1, "states": 1, "transitions": 1}
+    mixed = 0
+    for bi, blk in enumerate(d["blocks"]):
+        if blk["kind"] != "edgeGrading":
+            continue
+        for a in range(3):
+            exps = [item[0][2] if len(item) == 1 else None for item in blk["grading"][4 * a : 4 * a + 4]]
+            if None in exps:
+                continue
+            if max(exps) > 1 + 1e-9 and min(exps) < 1 - 1e-9 or not all(close(x, exps[0], 1e-9) for x in exps):
+                mixed += 1
+                if mixed == 1:
+                    violations.append({"clause": "parallel-edges-of-a-block-graded-from-opposite-ends", "coords": coords, "detail": f"block {bi} direction {a}: expansions of its four parallel edges {[round(x, 6) for x in exps]} after ONE {kw} request through the shape's chop call"})
+    graded = sum(1 for blk in d["blocks"] for item in blk["grading"] if len(item) == 1 and abs(item[0][2] - 1) > 1e-9)
+    return {"violations": violations, "outcomes": {f"shape:{'mixed' if mixed else 'uniform-per-block'}": 1}, "execs": 1, "nontrivial_n": int(graded > 0), "states": 1, "transitions": 1}
 
 
 def bounds(tier):
@@ -248,6 +349,8 @@ def close(a, b, rel=1e-6):
 
 
 def run_case(case):
+    if case.get("what") == "shape":
+        return run_shape(case)
     violations = []
     outcomes = {}
     execs = 0
